@@ -1,6 +1,6 @@
 """C09 — all front ends report the same findings: finding funnel, message funnel, LSP stale-version guard."""
 import re
-from ..query import deep_roots, ultimate_roots, describe_origin, field_path, TRANSPARENT, calls_in
+from ..query import deep_roots, ultimate_roots, describe_origin, field_path, TRANSPARENT, calls_in, path_avoiding
 
 EXPLANATION = (
     "Decided: R1 finding funnel — every front end that turns (rules, text) into findings (sg scan per file, sg scan --stdin, the "
@@ -131,6 +131,31 @@ def run(ctx):
                     if not (set(stores) & blocks) and not any(p.bb in blocks for p in pubs):
                         stale_ok = True
         ctx.ob("R3", "stale arm neither stores nor publishes", stale_ok, "one arm of the version comparison reaches neither the store nor publish_diagnostics", where=oc.loc())
+        # once the incoming version is accepted it must be recorded: no return between the test and the store.
+        # (an accepted-but-unrecorded version lets a later stale version pass the test)
+        rec_ok = False
+        detail = "accept arm not identified"
+        for c in cmps:
+            si = oc.switch_info(c)
+            if si and "true" in si["arms"]:
+                for arm in ("true", "false"):
+                    start = si["arms"][arm]
+                    blocks = oc.reachable_from(start)
+                    if set(stores) & blocks:  # the accept arm
+                        rets = [b for b in oc.return_blocks()]
+                        escaped = path_avoiding(oc, start, stores, rets)
+                        rec_ok = not escaped
+                        detail = "every path from the accepted-version arm to a return passes the store of VersionedAst { version: incoming, .. }" if rec_ok else "the handler can return after accepting a version WITHOUT recording it (an early return between the version test and the store): the stored version then lags behind the highest version received and a later stale update passes the test"
+        ctx.ob("R3", "an accepted version is always recorded", rec_ok, detail, where=oc.loc())
+        # the stored version is the incoming one
+        vok = False
+        for bi in stores:
+            for st in oc.blocks[bi]["s"]:
+                if st[0] == "A" and st[2][0] == "agg" and "VersionedAst" in st[2][1].get("adt", ""):
+                    ops = dict(zip(st[2][1]["fields"], st[2][2]))
+                    roots = ultimate_roots(prog, oc, ops["version"], TRANSPARENT | {"deref"})
+                    vok = any("version" in field_path(o.proj) and "text_document" in "".join(map(str, o.proj)) or ("version" in field_path(o.proj) and not any("get_mut" in str(x) for x in o.proj)) for ff, o in roots)
+        ctx.ob("R3", "the version stored is the incoming document version", vok, "VersionedAst.version is taken from the notification's text_document.version", where=oc.loc())
         # what is published is the stored entry
         if pubs:
             roots = ultimate_roots(prog, oc, pubs[0].args[2], TRANSPARENT | {"deref", "deref_mut"})
